@@ -24,7 +24,10 @@ def run(c):
         "one model step = one run of a real sender / handler / inserter between two blocking points, resumed one at a time",
         "the agent's wall clock is real (about base-300 s) and every generated second lies outside the range in which a decision of "
         "sendRecent/checkOutOfWindow could change during a case (< 80 s); the aggregators' clock is an input",
-        "goTicker's conveyor-full branch and goEraseHistoric's disk-limit branch are not stepped (real-time / deliberate drops); "
+        "goTicker's conveyor-full branch is not stepped (real-time); goEraseHistoric is exercised by -mode=eraser: the REAL eraser "
+        "goroutine (never cancelled) on an agent with 3..5 shards, one shard over its share of the disk limit (must be trimmed) and one "
+        "under it while all shards together exceed one share (must be kept); in the model it is the function eraserStep "
+        "(not an operation of the composed system; `over` = this shard's file sizes exceed its share, an input); "
         "the first is covered by the -mode=conveyor real-time scenario and a generated decision-site fact",
         "disk cache record format, torn writes and read errors are property C09",
         "generated seconds are small buckets of an almost idle agent (two counter rows with random tag values, 1 + t%3 tags in the "
@@ -48,7 +51,7 @@ def run(c):
     binary = c.go_build(HARNESS)
     if binary:
         gen(c, binary)
-    c.prove("SH.Props.C01", extra_files=["SH/Model/Delivery.lean", "SH/Lemmas/Delivery.lean", "SH/Lemmas/DeliveryRace.lean", "SH/Lemmas/DeliveryMain.lean", "SH/Lemmas/DeliveryLive.lean", "SH/Gen/C01.lean"])
+    c.prove("SH.Props.C01", extra_files=["SH/Model/Delivery.lean", "SH/Lemmas/Delivery.lean", "SH/Lemmas/DeliveryRace.lean", "SH/Lemmas/DeliveryMain.lean", "SH/Lemmas/DeliveryEraser.lean", "SH/Lemmas/DeliveryLive.lean", "SH/Gen/C01.lean"])
     drv = c.driver(DRIVER)
     if binary and drv:
         rc, out = c.go_run(binary, [f"-n={c.n(240, 2400)}"], timeout=1500)
@@ -63,6 +66,9 @@ def run(c):
         rc, out = c.go_run(binary, ["-mode=oversize", f"-n={c.n(1, 2)}"], timeout=900)
         c.harness_ok(rc, out, "verif-c01 -mode=oversize")
         c.collect(out, label="oversize")
+        rc, out = c.go_run(binary, ["-mode=eraser", f"-n={c.n(2, 8)}"], timeout=600)
+        c.harness_ok(rc, out, "verif-c01 -mode=eraser")
+        c.collect(out, label="eraser")
 
     def search():
         if not binary:
@@ -93,7 +99,9 @@ META = {
              "snapshot), covered by the same induction; delayed_inserter_stale_only_older — it classes as stale only buckets older than its "
              "snapshot minus the window, never one newer than the snapshot (decide witness for the wrapped unsigned rewrite); "
              "sampleBudget_fits / sampleBudget_clamp_now — the sampling budget is at most half the aggregator's bucket limit for every "
-             "budget source, tied to the regenerated fact that sampleBucket clamps at the top level of its body. LIVENESS (partial): "
+             "budget source, tied to the regenerated fact that sampleBucket clamps at the top level of its body. eraser_keeps / eraser_drops_only_over_share — the fail-safe eraser pass keeps the "
+             "agent invariant, records what it drops, and hands a popped in-window second back to the queue whenever the shard is not over "
+             "its own share (regenerated fact: diskUsed comes from s.HistoricBucketsDataSizeDisk()). LIVENESS (partial): "
              "can_always_finish_partial — from every reachable state in which a second is the oldest entry of the historic queue, inside "
              "the agent's window, its primary or spare replica alive and up, accepted into that replica's historic window with no other "
              "historic bucket waiting, the explicit 3-op fault-free schedule finishOps(state) (pop, deliver, clock to oldest+shortWindow+3) "
